@@ -113,7 +113,7 @@ class HTTPProtocol(BaseGopherProtocol):
 
     def renderobjinfo(self, entry):
         # Decision time....
-        if re.match("(/|)URL:", entry.getselector()):
+        if re.match("(/|)URL:(.+)$", entry.getselector()):
             # It's a plain URL.  Make it that.
             url = re.match("(/|)URL:(.+)$", entry.getselector()).group(2)
         elif (not entry.gethost()) and (not entry.getport()):
